@@ -15,7 +15,7 @@ fn gen_tree(rng: &mut Rng) -> Tree {
             let id = format!("g{depth}{k}");
             let mut a = ArgS { id: id.clone(), long: Some(id.clone()), global: true, ..Default::default() };
             match rng.below(4) {
-                0 => { a.action = Some("count"); a.short = Some(['v', 'w', 'x'][depth]); }
+                0 => { a.action = Some("count"); a.short = Some(['v', 'w', 'x', 'y'][depth]); }
                 1 => a.action = Some("setTrue"),
                 2 => { a.action = Some("set"); a.default_vals = vec![format!("d{depth}{k}")]; }
                 _ => { a.action = Some(if rng.chance(1, 2) { "set" } else { "append" }); }
@@ -41,6 +41,14 @@ fn gen_tree(rng: &mut Rng) -> Tree {
             if rng.chance(1, 2) { leaf.aliases.push(["le-alias", "tw-alias"][l].to_string()); }
             if rng.chance(1, 3) { leaf.short_flag = Some(['L', 'T'][l]); }
             if rng.chance(1, 4) { leaf.long_flag = Some(["leafflag", "twigflag"][l].to_string()); }
+            // a fourth level: dispatch-relevant settings set on the root have to reach the level that picks it
+            if rng.chance(1, 3) {
+                for b in 0..1 + rng.below(2) {
+                    let mut bud = level(rng, ["bud", "sprout"][b], 3);
+                    if rng.chance(1, 2) { bud.aliases.push(["bu-alias", "sp-alias"][b].to_string()); }
+                    leaf.subs.push(bud);
+                }
+            }
             mid.subs.push(leaf);
         }
         if rng.chance(1, 5) { mid.settings.allow_external_subcommands = true; }
@@ -51,7 +59,7 @@ fn gen_tree(rng: &mut Rng) -> Tree {
 }
 
 pub fn run(o: &Opts) -> Report {
-    let mut rep = Report::new("C09", "trees root->mid->leaf with 0-2 global args per level (Count/SetTrue/Set with default/Set/Append), aliases, short/long flag subcommands (incl. clusters), long-flag aliases without a primary long flag, inference, external subcommands x argv built from an intended chain with each global given at random levels at or below its defining one (repeated, different values, defaulted); oracle: reported chain = intended chain, external args verbatim, each global equal (value and source) at every level at/below its definition and explicit beats default; model must predict the whole ArgMatches; non-trivial = chain of >= 2 levels with a global given; distinct by canonical request");
+    let mut rep = Report::new("C09", "trees root->mid->leaf(->bud) with 0-2 global args per level (Count/SetTrue/Set with default/Set/Append), aliases, short/long flag subcommands (incl. clusters), long-flag aliases without a primary long flag, inference (also inherited from an ancestor's global setting), external subcommands x argv built from an intended chain with each global given at random levels at or below its defining one (repeated, different values, defaulted); oracle: reported chain = intended chain, external args verbatim, each global equal (value and source) at every level at/below its definition and explicit beats default; model must predict the whole ArgMatches; non-trivial = chain of >= 2 levels with a global given; distinct by canonical request");
     let mut rng = Rng::new(o.seed ^ 0xC09);
     let mut reqs = vec![]; let mut impls = vec![];
     let n_trees = if o.thorough() { 10000 } else { 1500 };
@@ -100,7 +108,7 @@ pub fn run(o: &Opts) -> Report {
                         (1, _, Some(l), _, _) => format!("--{l}"),
                         (2, _, _, Some(al), _) => al.clone(),
                         (3, _, _, _, Some(lfa)) => format!("--{lfa}"),
-                        (4, _, _, _, _) if c.settings.infer_subcommands && c.subs.iter().filter(|s| s.name.starts_with(&sc.name[..2]) || s.aliases.iter().any(|a| a.starts_with(&sc.name[..2]))).count() == 1 => sc.name[..2].to_string(),
+                        (4, _, _, _, _) if chain[..=li].iter().any(|x| x.settings.infer_subcommands) && c.subs.iter().filter(|s| s.name.starts_with(&sc.name[..2]) || s.aliases.iter().any(|a| a.starts_with(&sc.name[..2]))).count() == 1 => sc.name[..2].to_string(),
                         _ => sc.name.clone(),
                     };
                     argv.push(tok.into_bytes());
